@@ -658,6 +658,14 @@ def check_assembly(ctx):
     prob = []
     for c in ast.walk(f):
         if isinstance(c, ast.Call) and src(c.func).split('.')[-1] == 'Model' and (c.args or c.keywords):
+            # (only what makes the constructor compile formulas matters: reactions, rules or a file to read; empty lists do not)
+            _dc, init = ctx.prog.resolve_method('Model', '__init__')
+            names = [a.arg for a in init.args.args[1:]] if init is not None else []
+            given = {names[i] if i < len(names) else '*%d' % i: a for i, a in enumerate(c.args)}
+            given.update({k_.arg or '**': k_.value for k_ in c.keywords})
+            empty = lambda v: (isinstance(v, (ast.List, ast.Tuple)) and not v.elts) or (isinstance(v, ast.Constant) and v.value is None)
+            if not any(not empty(v) for n_, v in given.items() if n_ in ('filename', 'sbml_filename', 'reactions', 'rules', '**') or n_.startswith('*')):
+                continue
             prob.append('`%s` (%s) builds the model through the constructor, which creates reactions before parameters' % (src(c)[:70], ctx.loc('sbmlutil', c)))
     top = {}
     for c in ast.walk(f):       # (the assembly is straight-line code with loops: source order is execution order)
